@@ -25,6 +25,7 @@ pub struct Instance {
     pub backends: HashMap<String, Backend>, // endpoint id -> backend ("*" = default)
     pub seed: u64,
     pub prologue_len: usize,
+    pub psks: Vec<u8>, // psk indices of the primary name (for the protocol-agnostic session setup)
 }
 
 impl Instance {
@@ -39,7 +40,7 @@ impl Instance {
             "names": self.names,
             "dh": self.ps.dh.name(), "cipher": self.ps.cipher.name(), "hash": self.ps.hash.name(),
             "backends": self.backends.iter().map(|(k, v)| (k.clone(), v.name().to_string())).collect::<HashMap<_, _>>(),
-            "seed": self.seed, "prologue_len": self.prologue_len,
+            "seed": self.seed, "prologue_len": self.prologue_len, "psks": self.psks,
         })
     }
 }
@@ -204,6 +205,12 @@ impl<'a> Runner<'a> {
                 return self.out;
             },
         };
+        if self.scn["family"].as_str() == Some("transport") {
+            if let Err(e) = self.setup_transport() {
+                self.out.tool_error = Some(format!("transport setup: {e}"));
+                return self.out;
+            }
+        }
         for (i, st) in steps.iter().enumerate() {
             let before = self.out.violations.len();
             match self.step(i, st) {
@@ -221,6 +228,98 @@ impl<'a> Runner<'a> {
         }
         self.out.ops = self.log.lock().unwrap().ops.clone();
         self.out
+    }
+
+    /// Protocol-agnostic session setup for the transport scenarios: build both ends with every key the
+    /// name could need, let whoever's turn it is write until both report finished, read the raw split
+    /// (bound to the references K1/K2, donor session: D1/D2), convert to the requested mode.
+    fn honest_session(&mut self, ids: (&str, &str), stateful: bool, convert: bool) -> Result<([u8; 32], [u8; 32]), String> {
+        let name = self.inst.name_for("*").to_string();
+        let ps = self.inst.ps;
+        let s_i = self.bind.atoms["sI"].clone();
+        let s_r = self.bind.atoms["sR"].clone();
+        let pub_i = crate::prims::dh_pub(ps.dh, &s_i).ok_or("sI unusable")?;
+        let pub_r = crate::prims::dh_pub(ps.dh, &s_r).ok_or("sR unusable")?;
+        let prologue = self.bind.atoms["prologue"].clone();
+        let psk_idx: Vec<u8> = self.inst.psks.clone();
+        let mut made: Vec<HandshakeState> = vec![];
+        for (k, id) in [ids.0, ids.1].iter().enumerate() {
+            let params: snow::params::NoiseParams = name.parse().map_err(|e| format!("{e:?}"))?;
+            let resolver = RecResolver::new(self.inst.backend_for(if k == 0 { "I" } else { "R" }), id, self.inst.seed, true, self.log.clone());
+            let mut b = Builder::with_resolver(params, Box::new(resolver));
+            let (sk, rk) = if k == 0 { (&s_i, &pub_r) } else { (&s_r, &pub_i) };
+            b = b.local_private_key(sk).map_err(|e| format!("{e:?}"))?;
+            b = b.remote_public_key(rk).map_err(|e| format!("{e:?}"))?;
+            b = b.prologue(&prologue).map_err(|e| format!("{e:?}"))?;
+            let keys: Vec<[u8; 32]> = psk_idx
+                .iter()
+                .map(|n| self.bind.atoms[&format!("psk{n}")].as_slice().try_into().unwrap())
+                .collect();
+            for (j, n) in psk_idx.iter().enumerate() {
+                b = b.psk(*n, &keys[j]).map_err(|e| format!("{e:?}"))?;
+            }
+            let h = if k == 0 { b.build_initiator() } else { b.build_responder() }.map_err(|e| format!("build: {e:?}"))?;
+            made.push(h);
+        }
+        let mut r = made.pop().unwrap();
+        let mut i = made.pop().unwrap();
+        let mut buf = vec![0u8; 70000];
+        let mut out = vec![0u8; 70000];
+        for _ in 0..12 {
+            if i.is_handshake_finished() && r.is_handshake_finished() {
+                break;
+            }
+            if i.is_my_turn() {
+                let n = i.write_message(&[], &mut buf).map_err(|e| format!("hs write: {e:?}"))?;
+                r.read_message(&buf[..n], &mut out).map_err(|e| format!("hs read: {e:?}"))?;
+            } else {
+                let n = r.write_message(&[], &mut buf).map_err(|e| format!("hs write: {e:?}"))?;
+                i.read_message(&buf[..n], &mut out).map_err(|e| format!("hs read: {e:?}"))?;
+            }
+        }
+        if !(i.is_handshake_finished() && r.is_handshake_finished()) {
+            return Err("handshake did not finish".into());
+        }
+        let ks = i.dangerously_get_raw_split();
+        if convert {
+            let (ei, er) = if stateful {
+                (
+                    Endpoint::Tr(Box::new(i.into_transport_mode().map_err(|e| format!("{e:?}"))?)),
+                    Endpoint::Tr(Box::new(r.into_transport_mode().map_err(|e| format!("{e:?}"))?)),
+                )
+            } else {
+                (
+                    Endpoint::Sl(Box::new(i.into_stateless_transport_mode().map_err(|e| format!("{e:?}"))?)),
+                    Endpoint::Sl(Box::new(r.into_stateless_transport_mode().map_err(|e| format!("{e:?}"))?)),
+                )
+            };
+            self.eps.insert(ids.0.to_string(), ei);
+            self.eps.insert(ids.1.to_string(), er);
+        }
+        Ok(ks)
+    }
+
+    fn setup_transport(&mut self) -> Result<(), String> {
+        let prm = &self.scn["prm"];
+        let stateful = prm["stateful"].as_bool().ok_or("prm.stateful")?;
+        let top = prm["noncemode"].as_str() == Some("top");
+        let (k1, k2) = self.honest_session(("I", "R"), stateful, true)?;
+        let (d1, d2) = self.honest_session(("I2", "R2"), stateful, false)?;
+        self.bind.atoms.insert("K1".into(), k1.to_vec());
+        self.bind.atoms.insert("K2".into(), k2.to_vec());
+        self.bind.atoms.insert("D1".into(), d1.to_vec());
+        self.bind.atoms.insert("D2".into(), d2.to_vec());
+        if top && stateful {
+            for id in ["I", "R"] {
+                if let Some(Endpoint::Tr(t)) = self.eps.get_mut(id) {
+                    t.set_receiving_nonce(u64::MAX - 2);
+                    crate::hook::set_sending_nonce(t, u64::MAX - 2);
+                }
+            }
+        }
+        // the setup's own cipher operations are not part of the scenario
+        self.log.lock().unwrap().ops.clear();
+        Ok(())
     }
 
     fn check_hs_obs(&mut self, i: usize, op: &str, id: &str, obs: &Value, cause: &str) -> Result<(), String> {
@@ -279,7 +378,8 @@ impl<'a> Runner<'a> {
         if init != ei {
             self.viol(i, op, "obs.init", ei.to_string(), init.to_string(), cause);
         }
-        let ers = self.ev_opt(&obs["rs"])?;
+        let skip_rs = obs["rs"].as_array().and_then(|a| a.first()).and_then(|x| x.as_str()) == Some("skip");
+        let ers = if skip_rs { rs.clone() } else { self.ev_opt(&obs["rs"])? };
         if rs != ers {
             self.viol(
                 i,
